@@ -235,13 +235,21 @@ def pytree_node_registry_get(  # noqa: C901
         )
 
     if cls is None:
-        namespaces = frozenset({namespace, ''})
         with __REGISTRY_LOCK:
             registry = {
                 handler.type: handler
                 for handler in _NODETYPE_REGISTRY.values()
-                if handler.namespace in namespaces
+                if handler.namespace == ''
             }
+            if namespace != '':
+                # The handlers in the given namespace take precedence over the global ones.
+                registry.update(
+                    {
+                        handler.type: handler
+                        for handler in _NODETYPE_REGISTRY.values()
+                        if handler.namespace == namespace
+                    },
+                )
         if _C.is_dict_insertion_ordered(namespace):
             registry[dict] = _DICT_INSERTION_ORDERED_REGISTRY_ENTRY
             registry[defaultdict] = _DEFAULTDICT_INSERTION_ORDERED_REGISTRY_ENTRY
